@@ -187,6 +187,11 @@ func stmtPayload(p string, lower bool) []string {
 	switch p {
 	case "union-null":
 		return w("SELECT a , b FROM t UNION SELECT NULL , NULL")
+	case "union-null-system":
+		if lower {
+			return w("SELECT a , b FROM t UNION SELECT NULL , NULL FROM pg_catalog . pg_class")
+		}
+		return w("SELECT a , b FROM t UNION SELECT NULL , NULL FROM PG_CATALOG . PG_CLASS")
 	case "union-system":
 		if lower {
 			return w("SELECT a FROM t UNION SELECT relname FROM pg_catalog . pg_class")
@@ -296,9 +301,16 @@ func main() {
 	ps := pin.Stat("pinned scanner (top-level WHERE/HAVING, binary/unary/call nodes only): a position where the payload is missed")
 	ps.ExpectViol = "ContextClosed"
 	run.AddTLC(ps)
+	early, err := core.RunTLC(core.TLCOpts{Spec: "Injection", Cfg: "Injection_early.cfg", Timeout: 5 * time.Minute})
+	if err != nil || early.Violation != "ContextClosed" {
+		core.Fatalf("Injection_early.cfg must violate ContextClosed (got %q, %v)", early.Violation, err)
+	}
+	es := early.Stat("a detector that returns at the first finding the threshold filters out: the graver finding of the same payload is lost")
+	es.ExpectViol = "ContextClosed"
+	run.AddTLC(es)
 	// references
 	ref := map[string][]string{}
-	for _, p := range []string{"taut-num", "taut-str", "taut-ident", "sleep", "pg_sleep", "benchmark", "load_file", "xp_cmdshell", "union-null", "union-system"} {
+	for _, p := range []string{"taut-num", "taut-str", "taut-ident", "sleep", "pg_sleep", "benchmark", "load_file", "xp_cmdshell", "union-null", "union-system", "union-null-system"} {
 		for _, lower := range []bool{false, true} {
 			var text string
 			if st := stmtPayload(p, lower); st != nil {
